@@ -313,7 +313,7 @@ class Runner:
                     covers |= ctx.covers_hit
                     # vacuity guard: the hypotheses of the path must be satisfiable (unknown is accepted)
                     if ctx.obls:
-                        r, _ = core.check_sat(list(p.hyps), timeout_ms=3000, use_cvc5=False)
+                        r, _ = core.check_sat([h for h in p.hyps if core.is_linear(h)], timeout_ms=2000, use_cvc5=False)
                         if r == "unsat":
                             res.vacuous.append(f"[{case}] path #{pi}: contradictory hypotheses")
                             continue
